@@ -83,6 +83,30 @@ NUM = {
     "Branch.values[1]": ("H.Branch.ed(1.0, C1(), H.Sum.ed(1.0, v))", False),
 }
 
+S1 = "H.Sum.ed(1.0, 1.0)"
+SV = "H.Sum.ed(1.0, v)"
+NUM.update({
+    "Bin.values.Sum": (f"H.Bin.ed(0.0, 1.0, 2.0, [{S1}, {SV}], C0(), C0(), C0())", False),
+    "Bin.underflow.Sum": (f"H.Bin.ed(0.0, 1.0, 1.0, [C1()], {SV}, C0(), C0())", False),
+    "Bin.overflow.Sum": (f"H.Bin.ed(0.0, 1.0, 1.0, [C1()], C0(), {SV}, C0())", False),
+    "Bin.nanflow.Sum": (f"H.Bin.ed(0.0, 1.0, 1.0, [C1()], C0(), C0(), {SV})", False),
+    "SparselyBin.nanflow.Sum": (f'H.SparselyBin.ed(1.0, 1.0, "Count", {{0: C1()}}, {SV}, 0.0)', False),
+    "CentrallyBin.bins.Sum": (f"H.CentrallyBin.ed(2.0, [(0.0, {S1}), (2.0, {SV})], C0())", False),
+    "CentrallyBin.nanflow.Sum": (f"H.CentrallyBin.ed(1.0, [(0.0, C1()), (2.0, C0())], {SV})", False),
+    "IrregularlyBin.bins.Sum": (f"H.IrregularlyBin.ed(2.0, [(-INF, {S1}), (1.0, {SV})], C0())", False),
+    "IrregularlyBin.nanflow.Sum": (f"H.IrregularlyBin.ed(1.0, [(-INF, C1()), (1.0, C0())], {SV})", False),
+    "Stack.bins.Sum": (f"H.Stack.ed(2.0, [(-INF, {S1}), (1.0, {SV})], C0())", False),
+    "Stack.nanflow.Sum": (f"H.Stack.ed(1.0, [(-INF, C1()), (1.0, C0())], {SV})", False),
+    "Fraction.numerator.Sum": (f"H.Fraction.ed(1.0, {SV}, {S1})", False),
+    "Fraction.denominator.Sum": (f"H.Fraction.ed(1.0, {S1}, {SV})", False),
+    "Select.cut.Sum": (f"H.Select.ed(1.0, {SV})", False),
+    "Categorize.bins.Sum": (f'H.Categorize.ed(2.0, "Sum", {{"a": {S1}, "b": {SV}}})', False),
+    "Label.pairs.Sum": (f"H.Label.ed(1.0, {{'a': {S1}, 'b': {SV}}})", False),
+    "Index.values.Sum": (f"H.Index.ed(1.0, {S1}, {SV})", False),
+    "Branch.values[0].Sum": (f"H.Branch.ed(1.0, {SV}, C1())", False),
+    "Fraction.denominator.Bin": (f"H.Fraction.ed(1.0, C1(), H.Bin.ed(0.0, 1.0, 1.0, [C1(), H.Count.ed(v)], C0(), C0(), C0()))", True),
+})
+
 # key / length slots over ints: name -> (builder over k, range lo, hi)
 KEYS = {
     "SparselyBin.key": ('H.SparselyBin.ed(1.0, 1.0, "Count", {k: C1(), 7: C0()}, C0(), 0.0)', -2, 2),
@@ -205,8 +229,40 @@ if (a == z) != jeq(J(a), J(z)): return "eq-vs-json-disagree-for-zero"
                    bounds=bounds_text(tree, 1, data="finite reals + nan/+inf/-inf" if mode == "real" else "any float64"))
 
 
+def clones_concrete(tree, timeout=40):
+    """copy / immutable reload / pickle clone equal the original, on concrete records (incl. NaN, +-inf) chosen by a selector;
+    the comparisons run untraced because identity-based hashing (e.g. of NaN) is not reproducible path by path under the tracer"""
+    body = """
+import pickle
+k = sel(k, 0, 1, 2, 3, 4)
+with NT():
+    recs = [(0.5, 1.5, "a", 1.0), (NAN, NAN, "b", NAN), (INF, -INF, "a", 2.5), (-1.0, 0.25, "b", 1.0), (1.75, NAN, "a", NAN)]
+    a = MK()
+    for r in recs[: k + 1]: a.fill(r)
+    a0 = MK()
+    for r in reversed(recs[: k + 1]): a0.fill(r)
+    res = ""
+    cp = a.copy()
+    if not (a == cp) or not (cp == a) or (a != cp): res = "copy-unequal"
+    im = a.toImmutable()
+    if not (im == Factory.fromJson(a.toJson())): res = res or "json-reload-unequal-in-immutable-form"
+    if not (im == im.copy()): res = res or "immutable-copy-unequal"
+    pc = pickle.loads(pickle.dumps(a))
+    if not (a == pc) or not (pc == a): res = res or "pickle-clone-unequal"
+    if not (a == a): res = res or "not-reflexive"
+    if jeq(a.toJson(), a0.toJson()) and not (a == a0): res = res or "same-content-filled-in-other-order-unequal"
+    z = a.zero()
+    if (a == z) != jeq(a.toJson(), z.toJson()): res = res or "eq-vs-json-disagree-for-zero"
+if res: return res
+"""
+    return Harness(f"C09/clones-concrete/{tree.name}", [("k", "int")], "0 <= k <= 4", body, timeout=timeout, setup=_setup(tree),
+                   tree=tree.expr, bounds=bounds_text(tree, 5, data="1..5 concrete records incl. NaN/+-inf (prefix length by selector)"))
+
+
 def harnesses(tier):
     out = []
+    for t in cat.unit() + cat.deep() + ([] if tier == "quick" else cat.slot()[::2]):
+        out.append(clones_concrete(t))
     for n, (e, c) in NUM.items():
         out.append(numeric(n, e, c))
     for n, (e, lo, hi) in KEYS.items():
